@@ -30,6 +30,13 @@ def handle (j : Json) : Json :=
     -- observation after every choice
     let r := cs.foldl (fun (acc : ES × List Json) c => let s' := step acc.1 c; (s', acc.2 ++ [jobs s'])) ({}, [])
     jl r.2
+  else if op == "bulk" then
+    let ts := (jarr j "tasks").map (fun t => (jnat t "uid", jbool t "fault", jnat t "code"))
+    jl ((bulkEvents ts).map (fun e => match e with
+      | .start u    => jl [Json.str "start", jn u]
+      | .unsched u  => jl [Json.str "unsched", jn u]
+      | .failed u   => jl [Json.str "failed", jn u]
+      | .handed u b => jl [Json.str "handed", jn u, Json.str (if b then "DONE" else "FAILED")]))
   else Json.str "bad-op"
 
 end Driver.Exec
